@@ -12,8 +12,8 @@ PROPS["C14"] = dict(
           "edge between two members of the set; distinct = distinct fingerprint of the drawn DAG description."),
     assumptions=["inputs of the set form a DAG (transactions reference earlier ones by hash, as real transactions must)"],
     units=[
-        dict(name="sort", run="^TestC14DependencySort$", quick=20000, thorough=150000, shards_quick=1, shards_thorough=16),
-        dict(name="store", run="^TestC14UnminedTxs$", quick=400, thorough=3000, shards_quick=1, shards_thorough=16),
+        dict(name="sort", run="^TestC14DependencySort$", quick=50000, thorough=150000, shards_quick=1, shards_thorough=16),
+        dict(name="store", run="^TestC14UnminedTxs$", quick=4000, thorough=3000, shards_quick=1, shards_thorough=16),
         dict(name="fuzz", kind="fuzz", run="^FuzzDependencySort$", tiers=["thorough"], thorough="120s", timeout=600),
     ],
 )
@@ -32,7 +32,7 @@ PROPS["C01"] = dict(
           "and UnspentOutputs/OutputsToWatch as sets. Non-trivial = history has a confirmation and at least one of rollback, conflict removal, "
           "unconfirmed spend of a confirmed credit, lease, coinbase; distinct = fingerprint of universe + event list."),
     assumptions=_TX_ASSUME,
-    units=[dict(name="ledger", run="^TestC01LedgerTruth$", quick=1500, thorough=8000, shards_quick=2, shards_thorough=16)],
+    units=[dict(name="ledger", run="^TestC01LedgerTruth$", quick=4000, thorough=8000, shards_quick=2, shards_thorough=16)],
 )
 PROPS["C02"] = dict(
     pkg="c02", level="exploration",
@@ -42,7 +42,7 @@ PROPS["C02"] = dict(
           "identical (metamorphic). Non-trivial = (rollback followed by re-confirmation, or conflict loser with a descendant) and the direct "
           "construction has a different event count."),
     assumptions=_TX_ASSUME,
-    units=[dict(name="reorg", run="^TestC02ReorgConvergence$", quick=2000, thorough=10000, shards_quick=2, shards_thorough=16)],
+    units=[dict(name="reorg", run="^TestC02ReorgConvergence$", quick=8000, thorough=10000, shards_quick=2, shards_thorough=16)],
 )
 PROPS["C12"] = dict(
     pkg="c12", level="exploration",
@@ -52,7 +52,7 @@ PROPS["C12"] = dict(
           "crossed an expiry."),
     assumptions=_TX_ASSUME + ["lease durations are >= 1 s; the store keeps expiries in whole seconds, the ledger uses floor(now+duration)",
                               "leases are only requested for outputs that are clearly known (credited, no confirmed spender) or clearly unknown"],
-    units=[dict(name="leases", run="^TestC12Leases$", quick=1500, thorough=8000, shards_quick=2, shards_thorough=16)],
+    units=[dict(name="leases", run="^TestC12Leases$", quick=4000, thorough=8000, shards_quick=2, shards_thorough=16)],
 )
 PROPS["C13"] = dict(
     pkg="c13", level="exploration",
@@ -60,7 +60,7 @@ PROPS["C13"] = dict(
           "universe transaction and RangeTransactions for 7 ranges (fixed: (0,-1),(-1,0),(-1,-1); 4 drawn from block heights +-1, -1, 0, max, in both "
           "directions) are compared with the ledger. Non-trivial = a transaction moved between confirmed and unconfirmed and a spent/debit flag changed."),
     assumptions=_TX_ASSUME,
-    units=[dict(name="history", run="^TestC13History$", quick=2000, thorough=10000, shards_quick=2, shards_thorough=16)],
+    units=[dict(name="history", run="^TestC13History$", quick=6000, thorough=10000, shards_quick=2, shards_thorough=16)],
 )
 
 _MGR_ASSUME = [
